@@ -215,8 +215,11 @@ def period(value: object) -> t.Period:
         else:
             raise PeriodError(str(value))
 
-        # Reject ambiguous periods such as month:2014
-        if unit_weight(period.unit) > unit_weight(unit):
+        # Reject ambiguous periods such as month:2014 (a week is finer than a
+        # month although both weigh the same).
+        if unit_weight(period.unit) > unit_weight(unit) or (
+            unit == DateUnit.WEEK and period.unit == DateUnit.MONTH
+        ):
             raise PeriodError(str(value))
 
         return Period((unit, period.start, size))
